@@ -15,6 +15,8 @@ Query::run*, and the public relation/operator constructors) is classified:
 A site that is in none of the tables is a violation: that is the realistic regression (a new
 unwrap() on a value that can be None).
  (round 4, shared) Constraint::operands completeness (verify_all_bound reads it).
+ (round 5) calls of std APIs that panic on a bad position / size (split_at, split_off, remove, insert, drain(range),
+   chunks(0), ...) are inventory sites; constructor asserts are the documented satisfiable disjunctions.
 """
 import hirwalk
 import streams
@@ -71,9 +73,20 @@ TABLE = [
     ("State::resolve_storable_domain", "panic", "assertion failed: x.is_var()", "invariant", 1, "only called from update_var_domain"),
     ("State::exclude_from_domain", "panic", "assertion failed: x.is_list()", "invariant", 1, "only called by DistinctFd2Constraint::run with the list it builds"),
     ("DisequalityConstraint::walk_star", "panic", "assertion failed: kwalk.is_var()", "invariant", 1, "keys of a disequality extension are variables; reification maps free variables to `_` variables"),
+    # ---- std APIs that panic on a bad position
+    ("DistinctFd2Constraint as crate::state::constraint::Constraint>::run", "stdpanic", "insert", "invariant", 1, "Vec::insert at the position binary_search just returned in its Err (0 <= pos <= len)"),
+    ("Conda::from_conjunctions", "stdpanic", "split_off", "invariant", 1, "split_off(1) inside `if !clause.is_empty()` (len >= 1)"),
+    ("Condu::from_conjunctions", "stdpanic", "split_off", "invariant", 1, "as above"),
     # ---- the recorded finding
     ("LTerm::project", "panic", "Cannot project non-Projection", "reachable", 1, "F4: the projection is overwritten in place; a second state reaching the goal panics"),
 ]
+
+# std functions that panic on an out-of-range position, a zero size, a double borrow or an overflow
+STD_PANICS = {
+    "split_at", "split_at_mut", "remove", "swap_remove", "insert", "drain", "split_off", "copy_from_slice", "clone_from_slice", "chunks", "chunks_exact",
+    "rchunks", "windows", "step_by", "swap", "rotate_left", "rotate_right", "borrow", "borrow_mut", "copy_within", "repeat", "abs", "pow", "rem_euclid",
+    "div_euclid", "split_first_chunk", "truncate_front", "extend_from_within", "splice", "replace_range", "insert_str", "with_capacity",
+}
 
 # mechanically guarded idioms: (callee of the panic-capable call, inner call, guard call that must hold on the same receiver)
 GUARD_PAIRS = [("unwrap", "get_number", "is_number"), ("unwrap", "as_term", "is_term")]
@@ -114,6 +127,12 @@ def sites_of(fn):
                     out.append(("assert", "divzero" if op == "Div" else "remzero", t["sp"]))
             elif c in ("std::ops::Index::index", "std::ops::IndexMut::index_mut") and _vec_operand(t):
                 out.append(("index", "bounds", t["sp"]))
+            elif c.split("::")[-1] in STD_PANICS and any(x in c for x in ("slice", "vec::Vec", "VecDeque", "string::String", "RefCell", "core::num", "core::str", "std::str")):
+                # std APIs that panic on a bad position / size / borrow (their panic is inside std, not a site of ours)
+                if c.split("::")[-1] == "drain" and "RangeFull" in str(t.get("gargs")) + str(t.get("callee_full")):
+                    pass  # drain(..) over the full range cannot panic
+                else:
+                    out.append(("stdpanic", c.split("::")[-1], t["sp"]))
         elif t["k"] == "assert" and t["kind"] not in ("misaligned", "nullptr"):
             out.append(("assert", t["kind"], t["sp"]))
     return out
@@ -238,6 +257,49 @@ def guarded_sites(lib, fn):
     return res
 
 
+def check_constructor_asserts(ctx, lib, rule):
+    """The "precondition" class of the inventory is only honest if the asserted condition is the documented one
+    - satisfiable by every well-formed operand.  Every `assert!` of a constraint constructor is
+    `x.is_var() || x.is_number()` (arithmetic / order / disequality operands) or `x.is_list()` (distinctfd),
+    over a parameter, one per term parameter: `&&` for `||` makes the assert unsatisfiable and every use of the
+    relation a panic."""
+    ev = sym.Evaluator(lib, inline=lambda p, f: False)
+    n = 0
+    for p, fn in sorted(lib.fns.items()):
+        if not p.endswith("Constraint::new") or "hir" not in fn or fn.get("in_test_mod") or not ("::clpfd::" in p or "::clpz::" in p):
+            continue
+        n += 1
+        ctx.fn_seen(p)
+        t = ev.fn_term(fn)
+        conds = [s[1] for s in sym.subterms(t) if s[0] == "if" and any(isinstance(c[1], str) and "panic" in c[1] for c in sym.calls(s[2]))]
+        conds = list(dict.fromkeys(conds))
+        params = [i for i, ty in enumerate(fn.get("inputs") or []) if "lterm::LTerm" in ty]
+        seen = []
+        ok = True
+        why = ""
+        for c in conds:
+            good = False
+            if c[0] == "unop" and c[1] == "Not":
+                x = c[2]
+                if x[0] == "binop" and x[1] == "Or":
+                    a, b = x[2], x[3]
+                    names = {a[1].split("::")[-1], b[1].split("::")[-1]} if a[0] == "call" and b[0] == "call" else set()
+                    good = names == {"is_var", "is_number"} and a[2] == b[2] and a[2][0][0] == "param"
+                    if good:
+                        seen.append(a[2][0][1])
+                elif x[0] == "call" and x[1].split("::")[-1] == "is_list" and x[2][0][0] == "param":
+                    good = True
+                    seen.append(x[2][0][1])
+            if not good:
+                ok = False
+                why = "unrecognised assert condition %s" % show(c, maxdepth=5)[:120]
+        if ok and sorted(seen) != params:
+            ok = False
+            why = "asserts cover parameters %s, term parameters are %s" % (sorted(seen), params)
+        ctx.expect(ok, rule, "%s|operand-kind-asserts" % p, site_of(fn), "each term operand of a constraint constructor is asserted once to be a variable-or-number (or a list): %s" % (why or "ok"))
+    ctx.floor(rule, n, 7, "constraint constructors with operand asserts")
+
+
 def run(ctx, fb, cfg):
     lib = fb.lib
     # the "precondition" panic of verify_all_bound is dead on well-formed programs only if the
@@ -248,6 +310,13 @@ def run(ctx, fb, cfg):
         fdrules.check_dstore_keys(ctx, lib, "C23.K3.domain-store-keys")
         fdrules.check_registry(ctx, lib, "C23.K11.registry")
         fdrules.check_operands(ctx, lib, "C23.K10.operands-complete")
+        check_constructor_asserts(ctx, lib, "C23.K2.precondition-asserts")
+    # the inventory classifies the "Projection" panics of LTerm::hash / eq as preconditions (such terms exist only
+    # inside project bodies): that holds only if Project::solve replaces *every* projection, unconditionally,
+    # before the body runs (table shared with C11)
+    import C11
+
+    C11.check_what_is_projected(ctx, lib, "C23.K3.what-is-projected")
     R = "C23.K8.panic-inventory"
     edges, bodies = call_graph(lib)
     rs = roots(lib)
